@@ -338,6 +338,7 @@ def shard_run(arg):
 
 def run(tier, seed, work):
     res = vp.Result("C03", tier, seed, "exploration")
+    res.after_error_routes = ['refused_writes_in_between', 'unrepresentable_envs_refused']      # routes added in round 12 (a handled failure followed by ordinary work): must have observed something
     r = vp.rng(seed, "c03")
     if tier == "quick":
         pool = covering_pool(r, 60)
@@ -388,6 +389,7 @@ def run(tier, seed, work):
                        "names never contain '/' or NUL (quantifier)"]
     if tier == "thorough":
         res.extra["pairs_note"] = "all ordered pairs over the env pool"
+    res.required = list(getattr(res, "required", [])) + res.after_error_routes
     return res
 
 
